@@ -112,6 +112,34 @@ def r1(ctx: Ctx):
       ctx.fail(rule, nx, '_ThreadSafeIterator.__next__: with self._lock: return next(self._iterator)',
                'the underlying iterator is advanced without holding the lock',
                node=nx.node)
+    # the raw iterator never escapes the lock: every use outside __init__ is
+    # under self._lock and __iter__ hands out the wrapper itself
+    for name, meth in ci.methods.items():
+      if name == '__init__':
+        continue
+      uses = [x for x in walk_no_nested(meth.node) if is_self_attr(x, '_iterator')]
+      if not uses:
+        continue
+      eng.analyze(meth)
+      gm = cfgm.cfg_of(meth.node)
+      for u in uses:
+        nds = [nd for nd in gm.nodes if any(y is u for y in cfgm.node_exprs(nd))]
+        held_u = nds and all(all(ls_has(ls, lock) for ls in st.get(nd, ())) and st.get(nd)
+                             for st in eng.states_at(meth) for nd in nds)
+        if not held_u:
+          ctx.fail(rule, meth, f'_ThreadSafeIterator.{name}: self._iterator outside the lock',
+                   f'_ThreadSafeIterator.{name} exposes or advances the raw'
+                   ' shared iterator without the lock: consumers that obtain it'
+                   ' (e.g. through iter()) bypass the mutual exclusion', node=u)
+    itf = ci.methods.get('__iter__')
+    if itf is not None:
+      rets = [x for x in walk_no_nested(itf.node) if isinstance(x, ast.Return)]
+      if rets and all(unparse(r_.value) == 'self' for r_ in rets):
+        ctx.ok(rule, itf, '__iter__ returns the lock-protected wrapper', itf.node)
+      else:
+        ctx.fail(rule, itf, '_ThreadSafeIterator.__iter__: return self',
+                 'iter(wrapper) hands out something other than the'
+                 ' lock-protected wrapper', node=itf.node)
     init = ci.methods['__init__']
     one = [x for x in walk_no_nested(init.node) if isinstance(x, ast.Assign)
            and is_self_attr(x.targets[0], '_iterator') and isinstance(x.value, ast.Call)
@@ -255,6 +283,10 @@ from mlmverif.selfcheck import B, OK  # noqa: E402
 
 _F = 'utils/iter_utils.py'
 VARIANTS = [
+    B('iter-returns-raw-iterator', _F,
+      '      return next(self._iterator)\n\n  def __iter__(self):\n    return self\n',
+      '      return next(self._iterator)\n\n  def __iter__(self):\n    return self._iterator\n',
+      'R-C13-1'),
     B('no-threadsafe-wrapper', _F,
       '  if input_iterable is not None:\n    input_iterable = _ThreadSafeIterator(input_iterable)\n',
       '', 'R-C13-1'),
